@@ -731,7 +731,7 @@ def run_process(
                     return out, smp.history
 
                 if pool is not None:
-                    with A.enable_pool(pool, close_pool=False):
+                    with A.enable_pool(pool, close_pool=False, parallelize_prior=bool(getattr(pool, "parallelize_prior", False))):
                         out = _do_sample()
                 else:
                     out = _do_sample()
